@@ -42,6 +42,7 @@ type Engine struct {
 	fieldInvs  map[string]*FieldInv // canon struct type + "#" + field index
 	fieldSitesOutside map[string][]string
 	immutables []*FieldInv
+	nilable    map[string]bool // canonType(T)#field: []Object fields whose elements may be Go nil
 	tables     map[*ssa.Global]*tableInfo
 	tableText  string
 	astPkgs    map[string]*packages.Package
@@ -142,6 +143,30 @@ func loadEngine(repo string) (*Engine, error) {
 				if err := e.bindTable(tb); err != nil {
 					return e, err
 				}
+			}
+			for _, nl := range cf.Nilables {
+				tf := strings.SplitN(nl.Name, ".", 2)
+				var tn types.Object
+				if len(tf) == 2 {
+					tn = e.tpkgs[nl.PkgPath].Scope().Lookup(tf[0])
+				}
+				if tn == nil {
+					return e, fmt.Errorf("%s:%d: bad nilable %q", nl.File, nl.Line, nl.Name)
+				}
+				st, ok := tn.Type().Underlying().(*types.Struct)
+				found := false
+				for i := 0; ok && i < st.NumFields(); i++ {
+					if st.Field(i).Name() == tf[1] {
+						found = true
+					}
+				}
+				if !found {
+					return e, fmt.Errorf("%s:%d: no field %s", nl.File, nl.Line, nl.Name)
+				}
+				if e.nilable == nil {
+					e.nilable = map[string]bool{}
+				}
+				e.nilable[canonType(tn.Type())+"#"+tf[1]] = true
 			}
 			for _, fi := range cf.FieldInvs {
 				tn := e.tpkgs[fi.PkgPath].Scope().Lookup(fi.Type)
